@@ -421,19 +421,40 @@ func c17InterposeTrial(run *vk.Run, kind string, Q, nodes, j int) int {
 	run.Case(kind+"-interposed", cs)
 	var opn atomic.Int64
 	var inside atomic.Bool
+	var served atomic.Int32
+	var blocked chan struct{}
 	w.g.SetHook(func(tier, op, key string) error {
 		if inside.Load() {
 			return nil
 		}
 		if n := opn.Add(1) - 1; int(n) == j {
+			// The reader runs on its own goroutine; it may legitimately block behind this very
+			// admission (GenericRepository.Get shares reads through a singleflight group), in
+			// which case the admission simply resumes (a scheduling decision, never a verdict).
 			inside.Store(true)
-			w.interposedRead(cs, nodes-1)
+			done := make(chan struct{})
+			go func() { defer close(done); w.interposedRead(cs, nodes-1) }()
+			select {
+			case <-done:
+				served.Add(1)
+			case <-time.After(30 * time.Millisecond):
+				blocked = done
+			}
 			inside.Store(false)
 		}
 		return nil
 	})
 	err := reqs[0]()
 	w.g.SetHook(nil)
+	if blocked != nil {
+		select {
+		case <-blocked:
+		case <-time.After(c17Watchdog):
+			run.Count("watchdog", 1)
+			return int(opn.Load())
+		}
+		run.Count(kind+"_interposed_reader_blocked_behind_admission", 1)
+	}
 	ops := int(opn.Load())
 	issued := 0
 	if err == nil {
@@ -452,7 +473,9 @@ func c17InterposeTrial(run *vk.Run, kind string, Q, nodes, j int) int {
 	}
 	usable := w.usable(cs)
 	run.Eval(1)
-	run.Count(kind+"_interposed_positions", 1)
+	if served.Load() > 0 {
+		run.Count(kind+"_interposed_positions", 1)
+	}
 	run.Distinct(fmt.Sprintf("%s|interposed|nodes%d|Q%d|op%d/%d|usable%d", kind, nodes, Q, j, ops, usable))
 	if usable > Q || svcCount > Q {
 		run.Violation(c17Sig(cs, "exceeded|after-interposed-read"), map[string]any{"case": cs, "read_served_before_storage_op": j, "storage_ops_of_admission": ops,
